@@ -43,7 +43,8 @@ def cell_eq(a, b, tol=1e-9) -> bool:
         fa, fb = float(a), float(b)
         if math.isnan(fa) or math.isnan(fb):
             return math.isnan(fa) and math.isnan(fb)
-        return abs(fa - fb) <= tol * max(1.0, abs(fa), abs(fb))
+        # relative tolerance with a small absolute floor (1e-12): an absolute 1e-9 had hidden quotients rounded to ten decimals (D82)
+        return abs(fa - fb) <= tol * max(1e-3, abs(fa), abs(fb))
     if isinstance(a, dict) or isinstance(b, dict):
         return json.dumps(a, sort_keys=True) == json.dumps(b, sort_keys=True)
     return a == b
